@@ -6,6 +6,7 @@ from .common import *
 from . import c11
 
 EXPLANATION = (
+    "Added during the build (DESIGN.md 4.31): R18.6 evaluates SyncGroupBase.allocate and everything it calls on 15 groups of abstract terminals and checks the result against an independent description of the frame (bounded, not a proof over all groups). "
     "Decided: (R18.1) reserve-then-advance in every allocate() "
     "implementation (sibling cross-check of EBPFTerminal and the Aerotech "
     "allocator): a region's base is read from the accumulator "
